@@ -86,6 +86,10 @@ def _ops(ctx, lib, cls):
     O = {}
     O['reset_values_same_length'] = lambda s: s.reset_values(series('new%d' % s.npts, s.npts))
     O['reset_values_shorter'] = lambda s: s.reset_values(series('new7', 7))      # 7 > filtfilt's padlen (6) so that a later butter_pass is legal
+    # ... and to lengths whose FFT size 2**ceil(log2 npts) differs from the current one (8 -> 16 and 8 -> 4): the frequency
+    # axis depends on it
+    O['reset_values_longer_other_fft_size'] = lambda s: s.reset_values(series('new11', 11))
+    O['reset_values_much_shorter'] = lambda s: s.reset_values(series('new4', 4))
     O['add_constant'] = lambda s: s.add_constant(ctx.real('c', -10.0, 10.0))
     O['add_series'] = lambda s: s.add_series(series('ser%d' % s.npts, s.npts))      # of the CURRENT length
     O['add_signal'] = lambda s: s.add_signal(lib.Signal(series('other%d' % s.npts, s.npts), DT))
